@@ -2,7 +2,6 @@ package dtls
 
 //symgo:pkg github.com/pion/dtls/v3
 //symgo:param NKEY quick=2 thorough=3
-//symgo:replace (*github.com/pion/dtls/v3.Conn).sessionKey zzBadKey
 //symgo:stub nextConn is a fake netctx.PacketConn that records written datagrams; the remote address is a harness net.Addr with a fixed String(); the cipher suite is a harness fake whose Encrypt returns its input; the session store is an abstract list of (key, id, secret) entries that logs Del calls in one event log shared with the network fake
 //symgo:outside concurrent notify calls; what a store implementation does on Del (the model store removes the entry with exactly that key)
 
@@ -260,5 +259,3 @@ func zzFatalDropsSession() {
 		zzsymCover("warning_keeps")
 	}
 }
-
-func zzBadKey(c *Conn) []byte { return dtlsstate.CommonState(c.state).SessionID }
